@@ -764,7 +764,13 @@ func racePass(progs []Program, reps int, seed int64) (iterations int64) {
 	}()
 	for pi, p := range progs {
 		cur.Store(p.String())
-		for rep := 0; rep < reps; rep++ {
+		nrep := reps
+		if len(p.Pre) > 0 && len(p.Threads) == 2 {
+			// two single calls on a prepared object overlap only now and then (each is a few hundred nanoseconds): the
+			// detector needs the two critical sections to be concurrent in its happens-before order, so many repetitions
+			nrep = reps * 100
+		}
+		for rep := 0; rep < nrep; rep++ {
 			// TWO objects at a time: the program's own Reassembler and a second one driven by the NEXT program, all threads of
 			// both released together - objects share nothing, so the detector stays silent whatever the two do
 			hs := []*harness{newHarness(p)}
